@@ -594,7 +594,7 @@ def apply_mut(sl, m):
 # ----------------------------------------------------------------------------- fault catalogue
 AN_TARGETS = {'N1': 2, 'N3': 1, 'N4': 1, 'REF': 2, 'NM1': 3, 'PER': 2, 'TRN': 2}
 VALS = {'plain': 'X' * 70, 'TERM': 'AB~CD' + 'X' * 65, 'ELE': 'AB*CD' + 'X' * 65, 'SUB': 'AB:CD' + 'X' * 65, 'REP': 'AB^CD' + 'X' * 65,
-        'MIX': 'A~B*C:D^E' + 'X' * 61}
+        'MIX': 'A~B*C:D^E' + 'X' * 61, 'LONG': 'L' * 100 + 'M' * 40}
 
 
 def usable_vals(terms_key, ver):
@@ -624,9 +624,9 @@ def date_targets(base):
     return out
 
 
-SET_FAULTS = ['ele_plain', 'ele_srcsub', 'ele_TERM', 'ele_ELE', 'ele_SUB', 'ele_REP', 'ele_MIX', 'ele_date', 'ele_missing', 'ele_two_same_seg', 'ele_two_segs',
+SET_FAULTS = ['ele_plain', 'ele_LONG', 'ele_srcsub', 'ele_TERM', 'ele_ELE', 'ele_SUB', 'ele_REP', 'ele_MIX', 'ele_date', 'ele_missing', 'ele_two_same_seg', 'ele_two_segs',
               'ele_extra', 'ele_extra_special', 'seg_unknown', 'seg_unknown_first', 'seg_unknown_last', 'seg_dup_first', 'seg_missing_first',
-              'seg_trail', 'seg_blank', 'seg_unknown_blank', 'st_trail', 'st_extra_ele', 'st02_long', 'st02_absent', 'st02_sep', 'segid_sep', 'st_blank', 'st_dup_id', 'se_cnt', 'se_id',
+              'seg_trail', 'seg_blank', 'seg_unknown_blank', 'st_trail', 'st_extra_ele', 'st02_long', 'st02_absent', 'st02_sep', 'st03_sep', 'segid_sep', 'st_blank', 'st_dup_id', 'se_cnt', 'se_id',
               'se_omit', 'se_trail', 'se_blank', 'se_extra_ele', 'seg_two_errors']
 GROUP_FAULTS = ['gs_blank', 'gs_trail', 'gs_dup_id', 'gs06_long', 'gs06_sep', 'gs08_bad', 'ge_cnt', 'ge_id', 'ge_omit', 'ge_trail', 'ge_blank', 'ge_extra_ele',
                 'stray_before_st', 'stray_between_sets', 'stray_after_ge', 'stray_before_ge']
@@ -736,7 +736,7 @@ def apply_fault(spec, f, ii, gi, si, terms_key, rnd):
             mut.append(('st_ele', 2, Raw('')))
         else:
             mut.append(('st_trunc', 2))
-    elif f in ('st02_sep', 'segid_sep', 'gs06_sep'):
+    elif f in ('st02_sep', 'st03_sep', 'segid_sep', 'gs06_sep'):
         # values the acknowledgement echoes OUTSIDE AK404/IK404 - control numbers, segment identifiers - holding separators of the
         # acknowledgement itself (possible when the source uses other ones)
         t = TERMS[terms_key]
@@ -744,7 +744,11 @@ def apply_fault(spec, f, ii, gi, si, terms_key, rnd):
         if not seps:
             return False
         c = rnd.choice(seps)
-        if f == 'st02_sep':
+        if f == 'st03_sep':
+            if ver != '5010':
+                return False
+            mut.append(('st_ele', 3, Raw('0050' + c + '0X220A1')))       # ST03 (5010): echoed into AK203
+        elif f == 'st02_sep':
             s['id'] = Raw('0' + c + '01')
         elif f == 'gs06_sep':
             g['id'] = Raw('1' + c + '2')
